@@ -254,7 +254,18 @@ def r4(prog, rep):
     rep.ob("R4", "X-points are kept iff psinorm < psinorm(psi_sol) and inside the wall; psi_sep and x_points are filtered together", ok, f.site(), "", key="select/filter")
     ok = any(isinstance(n, ast.If) and T(mod, n.test) == K("not 0 < len(self.x_points) <= 2") and any(isinstance(x, ast.Raise) for x in n.body) for n in ast.walk(f.node))
     rep.ob("R4", "zero or more than two remaining X-points is an error", ok, f.site(), "", key="select/count")
-    ok = K("iflen(self.x_points)==1:") in src and K("self.describeSingleNull()") in src and K("self.describeDoubleNull()") in src
+    ok = False
+    for n in ast.walk(f.node):
+        if isinstance(n, ast.If) and isinstance(n.test, ast.Compare) and len(n.test.ops) == 1 and isinstance(n.test.ops[0], ast.Eq) \
+                and T(mod, n.test.left) == K("len(self.x_points)") and isinstance(n.test.comparators[0], ast.Constant) and n.test.comparators[0].value in (1, 2):
+            k = n.test.comparators[0].value
+            calls = lambda arm: {x.func.attr for st in arm for x in ast.walk(st) if isinstance(x, ast.Call) and isinstance(x.func, ast.Attribute) and x.func.attr in ("describeSingleNull", "describeDoubleNull")}
+            names = lambda arm: {x.attr for st in arm for x in ast.walk(st) if isinstance(x, ast.Attribute) and x.attr in ("describeSingleNull", "describeDoubleNull")}
+            body, other = names(n.body), names(n.orelse)
+            want_body = {"describeSingleNull"} if k == 1 else {"describeDoubleNull"}
+            want_other = {"describeDoubleNull"} if k == 1 else {"describeSingleNull"}
+            if body == want_body and other == want_other:
+                ok = True
     rep.ob("R4", "one X-point => single null, two => double null", ok, f.site(), "", key="select/dispatch")
     g = mod.funcs.get("TokamakEquilibrium.makeRegions.inside_wall")
     ok = g is not None and K("returnnotpolygons.intersect([Rc,point.R],[Zc,point.Z],Rws,Zws)") in T(mod, g.node)
